@@ -349,10 +349,17 @@ pub fn gen_schema(rng: &mut Rng) -> GSchema {
         };
         let ty = wrap_type(rng, &target, 3);
         let mut args = vec![];
-        if rng.chance(3, 10) {
-            let n_args = rng.range(1, 2);
+        if rng.chance(4, 10) {
+            let n_args = rng.range(1, 3);
             for k in 0..n_args {
-                let (aty, default): (Ty, Option<String>) = match rng.below(7) {
+                let (aty, default): (Ty, Option<String>) = match rng.below(14) {
+                    7 => (Ty::named("Int").list().list(), None),
+                    8 => (Ty::named("Int").list(), Some("[1, null]".into())),
+                    9 => (Ty::named("Float"), None),
+                    10 => (Ty::named("Color").list().non_null(), None),
+                    11 if !g.scalars.is_empty() => (Ty::named("Blob"), None),
+                    12 if !g.inputs.is_empty() => (Ty::named("Filter").non_null().list(), None),
+                    13 => (Ty::named("Int").non_null(), Some("5".into())),
                     0 => (Ty::named("Int"), None),
                     1 => (Ty::named("Int").non_null(), None),
                     2 => (Ty::named("String"), Some("\"dflt\"".into())),
@@ -609,7 +616,7 @@ impl OpGen<'_> {
                 if self.allow_vars && rng_variant.chance(1, 4) {
                     let cand: &[&'static str] = match (name.as_str(), *nn) {
                         ("Int", false) => &["vi", "vn"],
-                        ("Int", true) => &["vn"],
+                        ("Int", true) => &["vn", "vn", "vi"],
                         ("String", false) => &["vs"],
                         ("String", true) => &["vs"],
                         ("Color", false) => &["vc"],
